@@ -960,6 +960,7 @@ main(int argc, char *argv[])
 				continue;
 			}
 			setitimer(ITIMER_REAL, &zt, NULL);
+		setitimer(ITIMER_VIRTUAL, &zt, NULL);
 			switch (k) {
 			case 0: bind_run("dconv--zone-TAI", NULL, "TAI", H_YMD, 0, 0); break;
 			case 1: bind_run("dconv--zone-GPS", NULL, "GPS", H_YMD, 0, 0); break;
